@@ -1,6 +1,7 @@
 package props
 
 import (
+	"github.com/zitadel/saml/pkg/provider"
 	"bytes"
 	"unicode/utf16"
 	"strconv"
@@ -289,6 +290,69 @@ func c09Exec(c c09Case, bases []c09Base, meta *xt.Node) c09Result {
 		}
 		res.Labels = []string{"sigalg=" + c.SigAlg[strings.LastIndexAny(c.SigAlg, "#:")+1:], "key=" + c.Key}
 		record(w.Do(world.RawRequest("GET", "", w.Cfg.SSOPath(), raw, "", nil)))
+	case "config":
+		// every combination of the optional parts of the provider configuration (bit mask in Off) x every endpoint: GET (plus one
+		// ordinary request of the endpoint's kind) must be answered, never panic
+		m := c.Off
+		cfg := world.Config{}
+		var labels []string
+		on := func(bit int, name string) bool {
+			if m&(1<<bit) != 0 {
+				labels = append(labels, "config:"+name)
+				return true
+			}
+			return false
+		}
+		if on(0, "organisation") {
+			cfg.Organisation = &provider.Organisation{Name: "Org", DisplayName: "Org Display", URL: "https://org.example"}
+		}
+		if on(1, "contact-person") {
+			cfg.Contact = &provider.ContactPerson{ContactType: "technical", Company: "Co", GivenName: "G", SurName: "S", EmailAddress: "g@example.com", TelephoneNumber: "+1"}
+		}
+		if on(2, "metadata-signing") {
+			cfg.MetaSigAlg = world.RSASHA256
+		}
+		if on(3, "error-url+validity+cache-duration") {
+			cfg.ErrorURL, cfg.ValidUntil, cfg.CacheDuration = "https://idp.example/error", time.Hour, "PT5M"
+		}
+		if on(4, "host-derived-issuer+insecure") {
+			cfg.IssuerMode, cfg.HostPath, cfg.Insecure = "host", "saml", true
+		}
+		if on(5, "custom-endpoints") {
+			cfg.SSO, cfg.SLO, cfg.Attribute, cfg.Metadata = &world.EP{Path: "/c/sso"}, &world.EP{Path: "/c/slo", URL: "https://ext.example/slo"}, &world.EP{Path: "c/attr"}, &world.EP{Path: "/c/md", URL: "https://ext.example/md"}
+		}
+		if on(6, "encryption-algorithm+want-signed+time-format") {
+			cfg.EncryptionAlg, cfg.WantSigned, cfg.TimeFormat = "http://www.w3.org/2001/04/xmlenc#aes256-cbc", "1", "2006-01-02T15:04:05Z"
+		}
+		if on(7, "no-metadata-idp-config") {
+			cfg.NoIDPConfigMetadata = true
+		}
+		if len(labels) == 0 {
+			labels = []string{"config:defaults"}
+		}
+		res.Labels = append(labels, "endpoint="+c.Path)
+		w, err := stdWorld(cfg)
+		if err != nil {
+			res.Class = "construction-refused"
+			return res
+		}
+		path := map[string]string{"metadata": w.Cfg.MetadataPath(), "certificate": w.Cfg.CertificatePath(), "sso": w.Cfg.SSOPath(), "slo": w.Cfg.SLOPath(), "attribute": w.Cfg.AttributePath(), "callback": w.Cfg.CallbackPath()}[c.Path]
+		record(w.Do(world.NewRequest("GET", "", path, nil, "", nil)))
+		if res.Panic != "" {
+			return res
+		}
+		switch c.Path {
+		case "sso":
+			record(w.Do(msg.Redirect{XML: msg.Authn(msg.AuthnOpts{Issuer: msg.SPA().EntityID}).Render(xt.Style{}), RelayState: "rs"}.Request("", path)))
+		case "slo":
+			record(w.Do(msg.PostForm("", path, "SAMLRequest", msg.Logout(msg.LogoutOpts{Issuer: msg.SPA().EntityID}).Render(xt.Style{}), "rs", nil)))
+		case "attribute":
+			record(w.Do(msg.SOAPRequest("", path, msg.SOAP(msg.AttrQuery(msg.AttrQueryOpts{Issuer: msg.SPA().EntityID, NameID: "alice"})).Render(xt.Style{}))))
+		case "callback":
+			r := w.Store.Inject(world.AuthReq{AppID: "app-a", ACS: "https://sp-a.example/acs/post", Binding: msg.BindPost, RequestID: "_o", RelayState: "rs"})
+			w.Store.Complete(r.ID, "u-alice")
+			record(callbackReq(w, "", r.ID))
+		}
 	case "siglen":
 		// signature values of every interesting LENGTH (Off octets) and filling (Sub) against the registered key, on both bindings:
 		// shorter / equal / longer than the modulus, leading zero octets, a genuine signature with octets appended or prepended
@@ -634,6 +698,12 @@ func runC09(ctx Ctx) int {
 					nEnv++
 				}
 			}
+		}
+	}
+	// provider configurations: full product of 8 optional parts x 6 endpoints
+	for m := 0; m < 256; m++ {
+		for _, ep := range []string{"metadata", "certificate", "sso", "slo", "attribute", "callback"} {
+			cases = append(cases, c09Case{Fam: "config", Off: m, Path: ep})
 		}
 	}
 	// signature-value lengths x fillings x algorithms x registered key types x bindings
